@@ -265,6 +265,25 @@ func AuditAPI(in *Inst, model *m.DB, opt AuditOpts) []Finding {
 			}
 		}
 	}
+	// an id that is live only in another collection must not be found here
+	allIDs := map[string]bool{}
+	for _, c := range model.Colls {
+		for id := range c.Docs {
+			allIDs[id] = true
+		}
+	}
+	for _, name := range model.CollNames() {
+		c := model.Colls[name]
+		for id := range allIDs {
+			if c.Docs[id] != nil {
+				continue
+			}
+			r := Exec(in, m.Op{K: "findById", Coll: name, Id: id})
+			if !bad("id", fmt.Sprintf("FindById(%q,%s)", name, id), r) && len(r.Docs) != 0 {
+				add(fnd("id", "FindById(%q,%s) returned %s although the collection holds no such document", name, id, m.Canon(r.Docs[0])))
+			}
+		}
+	}
 	for _, q := range opt.Probes {
 		if model.Colls[q.Coll] == nil {
 			continue
